@@ -196,6 +196,11 @@ func (e *engCtx) beforeUnplan(sol nextroute.Solution, u nextroute.SolutionPlanUn
 	if e == nil || !ok || !su.IsPlanned() || len(su.SolutionStops()) == 0 {
 		return nil
 	}
+	// a fixed unit, or a member of a unit that is fixed through another member, is refused by the bookkeeping before
+	// the route is looked at (NR.Coll.unplanStops): nothing for the engine model to follow
+	if rootUnitFixed(sol, su) {
+		return nil
+	}
 	mine := map[int]bool{}
 	for _, st := range su.SolutionStops() {
 		mine[st.ModelStop().Index()] = true
@@ -330,4 +335,21 @@ func mixEst(o *Out, rec *recorder, mv nextroute.SolutionMoveStops, v nextroute.S
 		o.Op(fmt.Sprintf("mix est %s %s %s", olds, strings.Join(xs, ","), csvI(gs)), "mix est "+b01(ev.Violated))
 		o.Count("est-correspondence:no-mix")
 	}
+}
+
+// rootUnitFixed: the unit or the root unit it belongs to contains a fixed stop.
+func rootUnitFixed(sol nextroute.Solution, u nextroute.SolutionPlanUnit) bool {
+	if u.IsFixed() {
+		return true
+	}
+	mu := u.ModelPlanUnit()
+	for {
+		p, ok := mu.PlanUnitsUnit()
+		if !ok {
+			break
+		}
+		mu = p
+	}
+	su := sol.SolutionPlanUnit(mu)
+	return su != nil && su.IsFixed()
 }
